@@ -400,6 +400,8 @@ theorem applyRes_acct (cfg : Cfg) (pol : Policy) (step : Nat) (tickEv : Ev) (dc 
   | failed exc t =>
     obtain ⟨htn, hrec⟩ := hr exc t rfl
     simp only [applyRes]
+    split
+    · exact ⟨hst, hcm⟩
     cases hdec : retryDecision cfg pol step (t - acc.exec.firstAt) (acc.exec.attempts + 1) exc with
     | retry d =>
       simp only
